@@ -71,9 +71,6 @@ var regionTypes = map[string]types.Type{}
 
 // sliceRoot is the root type of the backing array of a slice in a region.
 func sliceRoot(elem types.Type, region string) types.Type {
-	if region == "" {
-		return types.NewSlice(elem)
-	}
 	k := region + "|" + elemKey(elem)
 	if t, ok := regionTypes[k]; ok {
 		return t
@@ -229,7 +226,10 @@ func rootKey(t types.Type) string {
 			return typeKey(t)
 		}
 		if sl, ok := u.Underlying().(*types.Slice); ok && strings.HasPrefix(u.Obj().Name(), "region:") {
-			return "[]" + elemKey(sl.Elem()) + "@" + strings.TrimPrefix(u.Obj().Name(), "region:")
+			if r := strings.TrimPrefix(u.Obj().Name(), "region:"); r != "" {
+				return "[]" + elemKey(sl.Elem()) + "@" + r
+			}
+			return "[]" + elemKey(sl.Elem())
 		}
 		return "cell:" + typeKey(t.Underlying())
 	case *types.Alias:
@@ -239,7 +239,7 @@ func rootKey(t types.Type) string {
 	case *types.Array:
 		return "[]" + elemKey(u.Elem())
 	case *types.Slice:
-		return "[]" + elemKey(u.Elem())
+		return "cell:[]" + elemKey(u.Elem()) // a variable of slice type, not a backing array
 	}
 	return "cell:" + typeKey(t.Underlying())
 }
@@ -282,8 +282,6 @@ func (l *LeafInfo) InnerSort(depth int) string {
 func isArrayRoot(t types.Type) (types.Type, bool) {
 	switch u := types.Unalias(t).(type) {
 	case *types.Array:
-		return u.Elem(), true
-	case *types.Slice:
 		return u.Elem(), true
 	case *types.Named:
 		switch uu := u.Underlying().(type) {
